@@ -13,6 +13,14 @@ def moves(tier):
 STATUS = [('None', None, None), ('PossiblePull', G.sq('d', 5), 'Horse'), ('MustCompletePush', G.sq('d', 5), 'Dog')]
 
 
+def self_controls(prog, facts):
+    from . import perturb
+
+    def rule(c, p2):
+        rules_c03.check_transitions(c, p2, inputs.make_interp(p2), MOVES_Q[:1], STATUS[:1])
+    return perturb.run_controls([('turn ends after the third step',
+                                  lambda f: perturb.perturb_int(f, 'GameState::move_piece', 3, 2, ty='usize'), rule, 'C03')], facts)
+
 def run(ctx, prog, facts, tier):
     I = inputs.make_interp(prog, fuel=5000000)
     rules_c03.check_step_is_len(ctx, prog, I)
